@@ -62,7 +62,17 @@ def classify(sf, ref, compare=None) -> Outcome:
                        "cwltool fails, StreamFlow succeeds with " + str(sf.output)[:400] + "\ncwltool: " + ref.error_summary())
     return Outcome("sf-fails-only", "disagree", sf, ref,
                    "StreamFlow fails, cwltool succeeds with " + str(ref.output)[:400] + "\nStreamFlow: "
-                   + sf.error_summary() + "\nfirst errors: " + " || ".join(first_errors(sf))[:800])
+                   + sf.error_summary() + "\nfirst error type: " + first_error_type(sf)
+                   + "\nfirst errors: " + " || ".join(first_errors(sf))[:800])
+
+
+def first_error_type(sf) -> str:
+    """class name of the first exception StreamFlow logged (the later ones are usually consequences: closed
+    database, cancelled tasks)"""
+    import re
+
+    m = re.search(r"^(?:[\w.]+\.)?(\w*(?:Exception|Error))\b", run._strip_ansi(sf.stderr), re.M)
+    return m.group(1) if m else "unknown"
 
 
 def first_errors(sf, n: int = 3) -> list[str]:
